@@ -5,7 +5,9 @@ B5 = (0x00, 0x01, 0x7f, 0x80, 0xff)
 
 def b9(b):
     vals = []
-    for v in (0x00, 0x01, 0x7f, 0x80, 0xff, b ^ 0x01, b ^ 0x80, (b + 1) & 0xff, (b - 1) & 0xff):
+    # boundary values, neighbours of b, and two structural values: '.' (label / token separator inside names) and
+    # 0x40 (first length above the 63-octet label limit; with 0x3f = b9(0x40)'s neighbour)
+    for v in (0x00, 0x01, 0x7f, 0x80, 0xff, b ^ 0x01, b ^ 0x80, (b + 1) & 0xff, (b - 1) & 0xff, 0x2e, 0x40):
         if v != b and v not in vals:
             vals.append(v)
     return vals
@@ -42,6 +44,17 @@ def i3_del_ins(seed, thorough):
     for p in pos + [n]:
         for v in B5:
             yield ('I3i', p, v), seed[:p] + bytes((v,)) + seed[p:]
+
+
+def i9_stretch(seed, thorough):
+    """One substituted byte *and* 300 filler octets appended: a length / count octet raised to a boundary value finds
+    enough data behind it to be honoured (two coordinated deviations a single substitution cannot reach)."""
+    n = len(seed)
+    filler = b'a' * 300
+    for p in positions(n, thorough)[:96 if not thorough else None]:
+        for v in (0x3f, 0x40, 0x7f, 0xff):
+            if v != seed[p]:
+                yield ('I9', p, v), seed[:p] + bytes((v,)) + seed[p + 1:] + filler
 
 
 def i4_pairs(seed, thorough):
@@ -126,7 +139,7 @@ def i8_suffixes(seed, other):
     yield ('I8', 'A'), b'A'
 
 
-def text_tokens(seeds, cap=14):
+def text_tokens(seeds, cap=15):
     """I6 token alphabet of a text class: names/values seen in seeds split at separators, each separator,
     a quote, one non-ASCII byte, NUL, a 40-digit number, the empty token."""
     import re
@@ -142,7 +155,7 @@ def text_tokens(seeds, cap=14):
             elif t not in toks and len(t) <= 40:
                 toks.append(t)
     base = seps[:5] + toks[:cap - 10 if cap > 10 else 2]
-    for extra in (b'0', b'"', b'\xc3', b'\x00', b'1' * 40):
+    for extra in (b'0', b'"', b'\xc3', b'\x00', b'1' * 40, b'1' * 4301):   # 4301: above CPython's int-from-str limit
         if extra not in base:
             base.append(extra)
     return base[:cap]
@@ -171,3 +184,33 @@ def is_texty(seeds):
     n = sum(len(s) for s in seeds) or 1
     printable = sum(1 for s in seeds for b in s if 32 <= b < 127 or b in (9, 10, 13))
     return printable / n > 0.95
+
+
+JSON_ALTS = ('NaN', 'Infinity', '-1', '1e400', '99999999999999999999', '"x"', '""', 'null', 'true', '[]', '{}', '[1]',
+             '1.5', '0')
+
+
+def i10_json(seed):
+    """For a seed that is a JSON object: every member value replaced by each of JSON_ALTS, every member removed, and
+    the document replaced by each alternative (non-object documents)."""
+    import json
+    try:
+        doc = json.loads(seed.decode('ascii'))
+    except Exception:  # noqa
+        return
+    if not isinstance(doc, dict):
+        return
+    keys = list(doc)
+
+    def render(d, raw):
+        parts = []
+        for k in d:
+            parts.append('%s: %s' % (json.dumps(k), raw[k] if k in raw else json.dumps(d[k])))
+        return ('{' + ', '.join(parts) + '}').encode('ascii')
+    for k in keys:
+        for alt in JSON_ALTS:
+            yield ('I10', k, alt), render(doc, {k: alt})
+        rest = {x: doc[x] for x in keys if x != k}
+        yield ('I10', k, 'removed'), render(rest, {})
+    for alt in JSON_ALTS:
+        yield ('I10', '$', alt), alt.encode('ascii')
